@@ -374,6 +374,24 @@ def run_metric_case(case):
                                "the stored reference)" %
                                (case["tool"], plane, k))
                     break
+    # the same reference reused for a second evaluation with another plane
+    # is an object that was projected already: refused, not skipped
+    from evo.core.trajectory import TrajectoryException
+    other = {"xy": "xz", "xz": "yz", "yz": "xy"}[plane]
+    est2, _ = build(Rs[::-1], ps, case["ctor"], [])
+    try:
+        if case["tool"] == "ape":
+            r2 = main_ape.ape(ref, est2, rel, project_to_plane=Plane(other),
+                              ref_name="R", est_name="E")
+        else:
+            r2 = main_rpe.rpe(ref, est2, rel, 1, Unit.frames,
+                              project_to_plane=Plane(other), ref_name="R",
+                              est_name="E")
+        out.append("%s(project_to_plane=%s) on a reference that was already "
+                   "projected onto %s by an earlier call was not refused" %
+                   (case["tool"], other, plane))
+    except TrajectoryException:
+        pass
     err = np.array(r.np_arrays.get("error_array", []))
     if case["est"] == "eq" and err.size and np.abs(err).max() > 1e-9:
         out.append("%s(project_to_plane=%s) of equal trajectories is not "
